@@ -664,8 +664,15 @@ def rust_type(txt, selfty):
         if re.match(pat, t): return ty
     m = re.match(r"^dynFn\((.*)\)->(.*)$", t)
     if m:                                                # &dyn Fn(X) -> Y : a user closure, which may panic: X -> res Y
-        a, r = rust_type(m.group(1), selfty), rust_type(m.group(2), selfty)
-        if all(not (isinstance(x, tuple) and x[0] == "unknown") for x in (a, r)): return ("fn", [a], r)
+        parts, depth, cur = [], 0, ""
+        for ch in m.group(1):
+            if ch in "<(": depth += 1
+            if ch in ">)": depth -= 1
+            if ch == "," and depth == 0: parts.append(cur); cur = ""
+            else: cur += ch
+        if cur: parts.append(cur)
+        a, r = [rust_type(x, selfty) for x in parts], rust_type(m.group(2), selfty)
+        if all(not (isinstance(x, tuple) and x[0] == "unknown") for x in a + [r]): return ("fn", a, r)
     m = re.match(r"^\((.*)\)$", t)
     if m and m.group(1) == "": return "unit"
     if m:
@@ -731,6 +738,8 @@ class Translator:
                 if x == 0.0: return ("(@zero A)", "elem")
                 if x == 1.0: return ("(@one A)", "elem")
                 if (self.spec.get("sarith") or self.spec.get("lit2")) and x == 2.0: return ("(add (@one A) (@one A))", "elem")
+                # a literal the model takes as a named parameter (Section variable of the generated file), by its exact text
+                if m.group(1) in self.spec.get("literals", {}): return (self.spec["literals"][m.group(1)], "elem")
                 self.bad("floating-point literal %s (only 0.0 / 1.0 have a meaning over an arbitrary Arith)" % txt)
             self.bad("numeric literal %r" % txt)
         if k == "var":
@@ -1060,7 +1069,8 @@ class Translator:
         vals = [self.ex(a, env, B) for a in args]
         alts = ent if isinstance(ent, list) else [ent]
         def fits(ty, pty): return pty is None or ty == pty or (ty == "lit" and pty in ("usize", "isize"))
-        chosen = [a for a in alts if all(fits(ty, pty) for (_, ty), pty in zip(vals, a.get("args", [None] * len(args))))]
+        chosen = [a for a in alts if all(fits(ty, pty) for (_, ty), pty in zip(vals, a.get("args", [None] * len(args))))
+                  and all(vals[k][0] == txt for k, txt in a.get("require", {}).items())]
         if not chosen:
             self.bad("arguments of `%s` have types %s, the call table expects %s" % (path, [ty for _, ty in vals], [a.get("args") for a in alts]))
         ent = chosen[0]
@@ -1105,11 +1115,15 @@ class Translator:
             owner = self.root_var(p, env)
             bty = self.place_type(base, env)
             if bty in LISTS:
+                cur = None
+                if base[0] == "index":
+                    # a[k][v] = x : the row a[k] is read (index-checked) before v is evaluated; it is written back below
+                    cur, _ = self.ex(base, env, B)
                 i, ti = self.ex(p[2], env, B)
                 if ti not in ("usize", "lit"): self.bad("index of type %s" % (ti,))
                 if tval == "lit": tval = LISTS[bty]
                 if tval != LISTS[bty]: self.bad("a %s stored into a %s" % (tval, bty))
-                cur, _ = self.ex(base, env, [])
+                if cur is None: cur, _ = self.ex(base, env, [])
                 direct = self.tb.FIELDS.get((owner.ty, base[2]), ("", ""))[0] == "{0}" if base[0] == "field" else base[0] == "var"
                 if direct and cur == owner.g:                  # x[i] = v  /  x.vec[i] = v : the owner is the list itself
                     B.append(("bind", ("v", owner.g), ("app", "upd", [g_raw(cur), g_raw(i), g_raw(val)])))
